@@ -553,4 +553,20 @@ theorem lo2_block_verdicts_schedule_in (o kh kc : Nat) (nil : Bool) (l : List Bu
   rw [(rc_headers_verdict_from o kh _ l hg B hB (rc_hbOK_all o kc nil hg h0)).2]
   exact lo2_block_verdicts_in B o (hsNew kh) _ hfit (hsNew_ok kh).1 (hsNew_ok kh).2 e' hgen
 
+/-- non-vacuity of `lo2_block_verdicts_schedule_in`: the text `afcExG` of AuditFixC (a block `[0, 12)` followed by a body
+    line that starts with `From`, so `HsGeneric` FAILS: `afcExG_not_generic`), values object present, four chunks, with
+    the hypothesis for the line starts below 12 only -/
+example : ((resumeRun afbHeadersP 0 (hsNew 1, rcHb false 0) afcExGCuts).2.1 = .ok ∨
+      (resumeRun afbHeadersP 0 (hsNew 1, rcHb false 0) afcExGCuts).2.1 = .empty ∨
+      (resumeRun afbHeadersP 0 (hsNew 1, rcHb false 0) afcExGCuts).2.1 = .moreBytes ∨
+      (resumeRun afbHeadersP 0 (hsNew 1, rcHb false 0) afcExGCuts).2.1 = .badChar) ∨
+    (∃ hs o', lo2Lines afcExG 0 hs o' ∧ 12 ≤ o') := by
+  have hg : Growing afcExGCuts :=
+    ⟨⟨afcExG.extract 2 7, by decide +kernel⟩, ⟨afcExG.extract 7 11, by decide +kernel⟩,
+     ⟨afcExG.extract 11 afcExG.size, by decide +kernel⟩, trivial⟩
+  exact lo2_block_verdicts_schedule_in 0 1 0 false afcExGCuts hg afcExG rfl (by decide +kernel)
+    (fun _ _ => Nat.zero_le _) 12 (afcExG_generic_in _)
+-- test: here the first alternative is the one that holds
+example : (resumeRun afbHeadersP 0 (hsNew 1, rcHb false 0) afcExGCuts).2.1 = .ok := by decide +kernel
+
 end Sipsp
